@@ -14,7 +14,12 @@ import vt, asmparse
 from vt import Infra
 
 WIDTHS = {1: ("signed char", "unsigned char"), 2: ("short", "unsigned short"), 4: ("int", "unsigned int"), 8: ("long", "unsigned long")}
-OPS_ASSIGN = {"add": "+=", "sub": "-=", "mul": "*=", "and": "&=", "or": "|=", "xor": "^=", "shl": "<<=", "shr": ">>="}
+OPS_ASSIGN = {"add": "+=", "sub": "-=", "mul": "*=", "div": "/=", "mod": "%=", "and": "&=", "or": "|=", "xor": "^=", "shl": "<<=", "shr": ">>="}
+# mixed cases: thread 0 performs `x op= v`, the other threads `x += v'` with operands that flip the sign of a
+# negative initial value (signed objects only): (initial value, operand of op=, operands of the += threads)
+MIX = {"sub": (-8, 3, (72, -70)), "mul": (-8, 2, (72, -70)), "div": (-8, 2, (72, -70)), "mod": (-7, 3, (72, -70)),
+       "and": (-8, 124, (72, -70)), "or": (-8, 3, (72, -70)), "xor": (-8, 5, (72, -70)), "shl": (8, 1, (16, -4)), "shr": (-8, 1, (72, -70))}
+MIX_SHAPES = [(2, 1), (3, 1)]
 OPS_INCDEC = {"preinc": "++%s", "predec": "--%s", "postinc": "%s++", "postdec": "%s--"}
 OPS_FETCH = {"fadd": "atomic_fetch_add", "fsub": "atomic_fetch_sub", "for": "atomic_fetch_or", "fxor": "atomic_fetch_xor", "fand": "atomic_fetch_and"}
 OPS_OTHER = ["xchg", "cas", "casw", "casinc", "lock"]
@@ -46,7 +51,7 @@ def c_unit(w, sg, kind):
         elif op in OPS_INCDEC:
             body = "return %s;" % (OPS_INCDEC[op] % lv)
         elif op in OPS_FETCH:
-            body = "%s(&%s, v); return 0;" % (OPS_FETCH[op], lv)
+            body = "return %s(&%s, v);" % (OPS_FETCH[op], lv)
         elif op == "xchg":
             body = "return atomic_exchange(&%s, v);" % lv
         elif op in ("cas", "casw"):
@@ -57,12 +62,19 @@ def c_unit(w, sg, kind):
         elif op == "lock":
             body = "while (atomic_exchange(&%s, 1)) ; cnt = cnt + v; %s = 0; return 0;" % (lv, lv)
         src.append(head + " " + body + " }")
+    for op in MIX:
+        src.append("long f_mix_%s(%sp, long v, long e) { if (e) return %s += v; return %s %s v; }" % (op, ptype, lv, lv, OPS_ASSIGN[op]))
     return "\n".join(src) + "\n"
 
 
 # ------------------------------------------------------------- the domain
 def op_values(op, w, sg, nt, reps):
     """(initial object value, args[t][k] = (v, e)) -- small, defined behaviour only."""
+    if op.startswith("mix_"):
+        init, vx, adds = MIX[op[4:]]
+        V = {(t, k): (vx if t == 0 else adds[(t - 1 + k) % len(adds)]) for t in range(nt) for k in range(reps)}
+        E = {(t, k): (0 if t == 0 else 1) for t in range(nt) for k in range(reps)}
+        return init, V, E
     idx = lambda t, k: (t * reps + k)
     base = op[1:] if op in OPS_FETCH else op
     V = {}
@@ -70,12 +82,12 @@ def op_values(op, w, sg, nt, reps):
         for k in range(reps):
             i = idx(t, k)
             # `+=` gets operands of both signs so that the object can return to an earlier value (ABA)
-            V[t, k] = dict(add=(i // 2 + 1) * (1 if i % 2 == 0 else -1) if base == op else i + 1, sub=i + 1, mul=i + 2, **{"and": 127 - (1 << i), "or": 1 << i, "xor": 1 << i},
+            V[t, k] = dict(add=(i // 2 + 1) * (1 if i % 2 == 0 else -1) if base == op else i + 1, sub=i + 1, mul=i + 2, div=i + 2, mod=i + 7, **{"and": 127 - (1 << i), "or": 1 << i, "xor": 1 << i},
                            shl=1, shr=1, preinc=1, predec=1, postinc=1, postdec=1, xchg=10 + i, cas=10 + i, casw=10 + i,
                            casinc=i + 1, lock=i + 1)[base]
     unsigned_small = (not sg) and w <= 2
     top = 250 if w == 1 else 65530
-    init = dict(add=top if unsigned_small else 5, sub=3 if unsigned_small else (2 if sg else 100), mul=3,
+    init = dict(add=top if unsigned_small else 5, sub=3 if unsigned_small else (2 if sg else 100), mul=3, div=120, mod=100,
                 **{"and": 127, "or": 0, "xor": 85}, shl=1, shr=64,
                 preinc=(top + 4 if w == 1 else 65534) if unsigned_small else 5, postinc=5,
                 predec=1 if unsigned_small else (1 if sg else 100), postdec=50,
@@ -90,7 +102,7 @@ def op_values(op, w, sg, nt, reps):
 
 
 def opk_of(op):
-    return {"casw": "cas"}.get(op, op)
+    return {"casw": "cas"}.get(op, op[4:] if op.startswith("mix_") else op)
 
 
 def canon(w, x):
@@ -142,7 +154,7 @@ def build_case(unit, fname, w, sg, kind, op, nt, reps):
     return dict(name=name, code=code, nt=nt, reps=reps, ss=frame + 96,
                 args=[[[rdi, V[t, k], E[t, k]] for k in range(reps)] for t in range(nt)],
                 shared=[[x, v] for x, v in sorted(shared.items())], obj=obj, w=w, sg=1 if sg else 0,
-                opk=opk_of(op), init=canon(w, init), keep=keep)
+                opk=opk_of(op), mix=1 if op.startswith("mix_") else 0, init=canon(w, init), keep=keep)
 
 
 def compile_units(ctx, tree, keys):
@@ -170,7 +182,16 @@ def domain(tier):
                 for op in ALL_OPS:
                     for nt, reps in SHAPES:
                         out.append((w, sg, kind, op, nt, reps))
+                if sg:
+                    for op in MIX:
+                        for nt, reps in MIX_SHAPES:
+                            out.append((w, sg, kind, "mix_" + op, nt, reps))
     return out
+
+
+def always(dom):
+    """small family every quick run includes completely: signed 1/2-byte objects, every op= against a sign-flipping +="""
+    return [c for c in dom if c[0] <= 2 and c[2] == "global" and c[3].startswith("mix_")]
 
 
 # ------------------------------------------------------------------ TLC
@@ -211,12 +232,17 @@ def judge(ctx, cases, meta, by, tso, label):
         verdicts = sorted({v["verdict"] for v in vs})
         if not vs:
             bad.append((case, meta[ci - 1], "never-quiescent", []))
+        elif "returns-new-value" in verdicts and set(verdicts) <= {"ok", "returns-new-value"}:
+            ex = [v for v in vs if v["verdict"] == "returns-new-value"][0]
+            ctx.report("atomic:fetch:returns-new-value",
+                       "%s: the values returned are those AFTER the operation (e.g. object %s, results %s); C11 7.17.7.5: the value before"
+                       % (case["name"], ex["mem"], ex["rets"]), case=dict(kind="case", coord=meta[ci - 1]["coord"], tso=tso))
         elif verdicts != ["ok"]:
             merr = [v for v in verdicts if v.startswith("model:")]
-            if merr and len(merr) == len([v for v in verdicts if v != "ok"]):
+            if merr and len(merr) == len([v for v in verdicts if v not in ("ok", "returns-new-value")]):
                 raise Infra("interpreter left its modelled range on %s: %s" % (case["name"], merr[0]))
-            worst = [v for v in verdicts if v != "ok" and not v.startswith("model:")][0]
-            bad.append((case, meta[ci - 1], worst, [v for v in vs if v["verdict"] != "ok"][:3]))
+            worst = [v for v in verdicts if v not in ("ok", "returns-new-value") and not v.startswith("model:")][0]
+            bad.append((case, meta[ci - 1], worst, [v for v in vs if v["verdict"] not in ("ok", "returns-new-value")][:3]))
     ctx.cov["traces_validated_against_impl"] += len(cases)
 
     def report(t):
@@ -225,7 +251,7 @@ def judge(ctx, cases, meta, by, tso, label):
         return t, res
     for (case, m, verdict, examples), res in vt.pmap(report, bad, workers=4):
         w, sg, kind, op, nt, reps = m["coord"]
-        sig = "atomic:%s:%s:%s" % (kind, "op=" if (op in OPS_ASSIGN or op in OPS_INCDEC or op in OPS_FETCH) else op, verdict)
+        sig = "atomic:%s:%s:%s" % (kind, "fetch" if op in OPS_FETCH else "op=" if (op in OPS_ASSIGN or op in OPS_INCDEC or op.startswith("mix_")) else op, verdict)
         f = vt.match_finding(ctx.findings, sig)
         p = None
         if not f:
@@ -348,7 +374,7 @@ def run(ctx):
     if "lost-update" not in {v["verdict"] for v in by.get(1, [])}:
         raise Infra("sensitivity control failed: TLC finds no lost update in a plain (non-atomic) `+=`")
     # 1. Level A on the generated domain (AtomicObj.tla: Lin is exactly its set of terminal states)
-    sc = dom if not q else vt.subsample(dom, ctx.seed, 13)
+    sc = dom if not q else sorted(set(vt.subsample(dom, ctx.seed, 13)) | set(always(dom)))
     cases, meta = make_cases(ctx, units, sc)
     ctx.phase("parsed %d cases" % len(cases))
     pf = os.path.join(ctx.scratch, "prog-levelA.json")
@@ -390,7 +416,7 @@ def run(ctx):
     ctx.phase("stress")
     ctx.assumptions += ["values are kept small (|v| < 2^30); a register is modelled as a 32-bit signed value plus a zero-/sign-extension flag",
                         "an instruction is one atomic step, except unlocked read-modify-writes of shared memory, which are split into load and store",
-                        "atomic_fetch_* of include/stdatomic.h return the NEW value (mapped onto op=); the result is not judged, only the object",
+                        "the values returned by atomic_fetch_* are judged: the vector of results of an execution must be explained by one serial order, under the C11 convention (value before) or - reported as atomic:fetch:returns-new-value - the value-after convention",
                         "stress runs do not control the schedule; they are judged on final values only"]
     return ctx.finish(rule="case = (width, signedness, object kind, operation, threads x repetitions, memory model); TLC explores every interleaving of the emitted instruction sequences; distinct = distinct case name",
                       exhaustive=not q, extra=dict(sc_cases=len(cases), tso_cases=len(tcases), liveness_cases=len(lcases)))
